@@ -83,9 +83,13 @@ OutMay(S, d, t) == ~IsDone(S, d) /\ S.del[d].exp >= t /\ SubLive(S, d[2])
 (* same subscription with the same non-empty ordering key is certainly     *)
 (* still outstanding.                                                      *)
 Preds(S, d) == {x \in DelsOf(S, d[2]) : x # d /\ S.del[x].n < S.del[d].n}
+\* Ordering switched on by UpdateSubscription ("Google does not support changing this on the
+\* fly, even though we (sort of) do"): the guarantee is only claimed between deliveries created
+\* while ordering was enabled; ghost gord[s] is the delivery number watermark at the switch.
+OrdSince(S, s) == IF "gord" \in DOMAIN S /\ s \in DOMAIN S.gord THEN S.gord[s] ELSE 0
 Blocked(S, d, t) ==
   /\ S.subs[d[2]].ord /\ KeyOf(S, d) # ""
-  /\ \E x \in Preds(S, d) : KeyOf(S, x) = KeyOf(S, d) /\ OutDef(S, x, t)
+  /\ \E x \in Preds(S, d) : KeyOf(S, x) = KeyOf(S, d) /\ OutDef(S, x, t) /\ S.del[x].n > OrdSince(S, d[2])
 (* The implementation serialises a keyed message of an ordered             *)
 (* subscription behind EVERY earlier message of the subscription (named    *)
 (* deviation, stricter than the contract).  The progress clauses therefore *)
@@ -449,6 +453,17 @@ VNack(S, e, S2) ==
     \cup Chk("C04:nack-side-effect", \A d \in Dels(S) \ ids : SameDel(S, S2, d))
     \cup Chk("C04:nack-frame", RestSame(S, S2, {"topics", "subs", "msgs", "snaps"}))
 
+(* One StreamingPull request carrying acknowledgements (ids) and zero       *)
+(* deadlines (nids): ONE transaction of the stream's reader.  It is judged  *)
+(* as an Acknowledge followed, without any state in between being visible, *)
+(* by a nack: the intermediate state M is S with the acknowledged          *)
+(* deliveries taking their final records.                                  *)
+EvAck(e) == [op |-> "Ack", sub |-> e.sub, ids |-> e.ids, t0 |-> e.t0, t1 |-> e.t1, code |-> "OK"]
+EvNack(e) == [op |-> "Nack", ids |-> e.nids, bo |-> e.bo, t0 |-> e.t0, t1 |-> e.t1, code |-> "OK"]
+MidAN(S, e, S2) ==
+  LET A == Named(S, e) IN
+  [S EXCEPT !.del = [d \in DOMAIN @ |-> IF d \in A /\ d \in DOMAIN S2.del THEN S2.del[d] ELSE @[d]]]
+
 (***************************************************************************)
 (* Seek (C13)                                                              *)
 (***************************************************************************)
@@ -693,36 +708,6 @@ VFailed(S, e, S2) ==
   \cup Chk("C09:failed-operation-woke-waiter", Len(e.woken) = 0)
 
 (***************************************************************************)
-(* Dispatch                                                                *)
-(***************************************************************************)
-V(S, e, S2) ==
-  CASE e.op = "Tick" -> VTick(S, e, S2)
-    [] e.op = "CreateTopic" -> VCreateTopic(S, e, S2)
-    [] e.op = "DeleteTopic" -> VDeleteTopic(S, e, S2)
-    [] e.op = "CreateSub" -> VCreateSub(S, e, S2)
-    [] e.op = "DeleteSub" -> VDeleteSub(S, e, S2)
-    [] e.op = "UpdateSub" -> VUpdateSub(S, e, S2)
-    [] e.op = "SetDelay" -> VSetDelay(S, e, S2)
-    [] e.op = "Publish" -> VPublish(S, e, S2)
-    [] e.op = "Pull" -> VPull(S, e, S2)
-    [] e.op = "PullTimeout" -> VPullTimeout(S, e, S2)
-    [] e.op = "Ack" -> VAck(S, e, S2)
-    [] e.op = "ModAck" -> VModAck(S, e, S2)
-    [] e.op = "Nack" -> VNack(S, e, S2)
-    [] e.op = "SeekTime" -> VSeekTime(S, e, S2)
-    [] e.op = "CreateSnap" -> VCreateSnap(S, e, S2)
-    [] e.op = "DeleteSnap" -> VDeleteSnap(S, e, S2)
-    [] e.op = "SeekSnap" -> VSeekSnap(S, e, S2)
-    [] e.op = "DLSweep" -> VDLSweep(S, e, S2)
-    [] e.op = "ExpireSubs" -> VExpireSubs(S, e, S2)
-    [] e.op \in PruneJobs -> VPrune(S, e, S2)
-    [] e.op = "Get" -> VGet(S, e, S2)
-    [] e.op = "List" -> VList(S, e, S2)
-    [] e.op = "Failed" -> VFailed(S, e, S2)
-    [] e.op = "Converged" -> VConverged(S, e, S2)
-    [] OTHER -> {"C00:unknown-op"}
-
-(***************************************************************************)
 (* Clauses that apply to EVERY step, whatever the operation.               *)
 (*   C01: a delivery that is outstanding for certain only stops being      *)
 (*        outstanding for one of the reasons the property lists.           *)
@@ -745,7 +730,7 @@ Addressed(S, e) ==   \* the subscriptions an operation is allowed to touch deliv
     [] e.op \in {"CreateTopic", "DeleteTopic", "CreateSub", "CreateSnap", "DeleteSnap", "Get", "List", "Tick", "Converged"} -> {}
     [] OTHER -> DOMAIN S.subs      \* publish, background jobs, failed attempts: judged by their own clauses
 
-VGeneric(S, e, S2) ==
+VGeneric1(S, e, S2) ==
   Chk("C01:outstanding-delivery-lost",
       \A d \in Dels(S) :
          (OutDef(S, d, e.t1) /\ ~(d \in Dels(S2) /\ ~IsDone(S2, d) /\ S2.del[d].exp >= S.del[d].exp))
@@ -753,15 +738,69 @@ VGeneric(S, e, S2) ==
   \cup Chk("C02:other-subscription-affected",
       \A d \in Dels(S) : d[2] \notin Addressed(S, e) => SameDel(S, S2, d))
 
+VStreamAN(S, e, S2) ==
+  IF e.code # "OK" THEN VErr(S, e, S2)
+  ELSE LET M == MidAN(S, e, S2) IN
+       VAck(S, EvAck(e), M) \cup VGeneric1(S, EvAck(e), M)
+       \cup VNack(M, EvNack(e), S2) \cup VGeneric1(M, EvNack(e), S2)
+
+VGeneric(S, e, S2) == IF e.op = "StreamAN" /\ e.code = "OK" THEN {} ELSE VGeneric1(S, e, S2)
+
+(***************************************************************************)
+(* Dispatch                                                                *)
+(***************************************************************************)
+\* C12, racing creates: n identical create requests issued concurrently (event field `codes`
+\* holds every reply, `code` the winner's): together they behave like ONE create - the state
+\* clauses of the create apply to `code` - and every other reply is what a create arriving
+\* after the winner gets.
+VRace(S, e, S2) ==
+  IF "codes" \notin DOMAIN e THEN {}
+  ELSE LET n == Len(e.codes)
+           oks == {i \in 1..n : e.codes[i] = "OK"}
+           rest == IF e.code = "OK" THEN "AlreadyExists" ELSE e.code
+       IN Chk("C12:racing-creates-several-succeed", Cardinality(oks) <= 1)
+          \cup Chk("C12:racing-creates-winner", (e.code = "OK") = (oks # {}))
+          \cup Chk("C12:racing-creates-loser-reply", \A i \in 1..n : i \notin oks => e.codes[i] = rest)
+
+V(S, e, S2) ==
+  CASE e.op = "Tick" -> VTick(S, e, S2)
+    [] e.op = "CreateTopic" -> VCreateTopic(S, e, S2) \cup VRace(S, e, S2)
+    [] e.op = "DeleteTopic" -> VDeleteTopic(S, e, S2)
+    [] e.op = "CreateSub" -> VCreateSub(S, e, S2) \cup VRace(S, e, S2)
+    [] e.op = "DeleteSub" -> VDeleteSub(S, e, S2)
+    [] e.op = "UpdateSub" -> VUpdateSub(S, e, S2)
+    [] e.op = "SetDelay" -> VSetDelay(S, e, S2)
+    [] e.op = "Publish" -> VPublish(S, e, S2)
+    [] e.op = "Pull" -> VPull(S, e, S2)
+    [] e.op = "PullTimeout" -> VPullTimeout(S, e, S2)
+    [] e.op = "Ack" -> VAck(S, e, S2)
+    [] e.op = "ModAck" -> VModAck(S, e, S2)
+    [] e.op = "Nack" -> VNack(S, e, S2)
+    [] e.op = "StreamAN" -> VStreamAN(S, e, S2)
+    [] e.op = "SeekTime" -> VSeekTime(S, e, S2)
+    [] e.op = "CreateSnap" -> VCreateSnap(S, e, S2) \cup VRace(S, e, S2)
+    [] e.op = "DeleteSnap" -> VDeleteSnap(S, e, S2)
+    [] e.op = "SeekSnap" -> VSeekSnap(S, e, S2)
+    [] e.op = "DLSweep" -> VDLSweep(S, e, S2)
+    [] e.op = "ExpireSubs" -> VExpireSubs(S, e, S2)
+    [] e.op \in PruneJobs -> VPrune(S, e, S2)
+    [] e.op = "Get" -> VGet(S, e, S2)
+    [] e.op = "List" -> VList(S, e, S2)
+    [] e.op = "Failed" -> VFailed(S, e, S2)
+    [] e.op = "Converged" -> VConverged(S, e, S2)
+    [] OTHER -> {"C00:unknown-op"}
+
 (***************************************************************************)
 (* Ghost (history) state: a deterministic function of the step.            *)
 (*   acked  : deliveries for which an acknowledgement has succeeded on     *)
 (*            their own subscription and that no later seek has rewound    *)
 (*   gsnap  : for each snapshot, what it denotes                           *)
+(*   gord   : per subscription, the highest delivery number that existed   *)
+(*            when ordering was last switched on by an update (else 0)     *)
 (***************************************************************************)
 GhostAcked(S, e, S2) ==
   LET base ==
-    CASE e.op = "Ack" /\ e.code = "OK" ->
+    CASE e.op \in {"Ack", "StreamAN"} /\ e.code = "OK" ->
            S.acked \cup {d \in Named(S, e) : d[2] \in SubsNamed(S, e.sub)}
       [] e.op \in {"SeekTime", "SeekSnap"} /\ e.code = "OK" ->
            {d \in S.acked : d[2] \notin SubsNamed(S, e.sub)}
@@ -777,6 +816,13 @@ GhostSnap(S, e, S2) ==
                      seen |-> {d[1] : d \in DelsOf(S, s)}]) @@ S.gsnap
     ELSE S.gsnap
   IN [n \in DOMAIN base \cap DOMAIN S2.snaps |-> base[n]]
+
+GhostOrd(S, e, S2) ==
+  LET ns == {S2.del[x].n : x \in DOMAIN S2.del}
+      top == IF ns = {} THEN 0 ELSE CHOOSE n \in ns : \A k \in ns : k <= n
+  IN [s \in DOMAIN S2.subs |->
+        IF s \in DOMAIN S.subs /\ ~S.subs[s].ord /\ S2.subs[s].ord THEN top
+        ELSE IF s \in DOMAIN S.subs THEN OrdSince(S, s) ELSE 0]
 
 (***************************************************************************)
 (* State invariants (evaluated on every state of the model and on every    *)
